@@ -36,7 +36,7 @@ theorem mt_forms : ∀ f ∈ mtForms, f.2 = true := by decide
 
 theorem mt_forms_all : mtForms.map Prod.fst =
     [bytes! "instantiate-call", bytes! "instantiate2-call", bytes! "ExecProxy::new", bytes! "ExecProxy::with_funds", bytes! "ExecProxy::call",
-     bytes! "MigrateProxy::call", bytes! "default-dispatch"] := by decide
+     bytes! "MigrateProxy::call", bytes! "default-dispatch", bytes! "override-dispatch"] := by decide
 
 /-- `impl cw_multi_test::Contract`: each operation runs the override or the default dispatch of its own kind -/
 theorem mt_contract_bodies : mtContractBodies =
